@@ -97,8 +97,9 @@ class _LazyIter:
 
 
 class Tiny:
-    def __init__(self, env, calls=None, default_call=None, model_types=False, opaque_globals=False, inline_self=None, model_strings=False):
+    def __init__(self, env, calls=None, default_call=None, model_types=False, opaque_globals=False, inline_self=None, model_strings=False, local_defs=False):
         self.model_strings = model_strings  # opt-in: pure str/bytes operations on the model's own constants (split, find, slicing, int(), join ...)
+        self.local_defs = local_defs  # opt-in: a `def` inside the evaluated code can be called by name (its body is evaluated on the cell)
         self.inline_self = inline_self  # opt-in: method name -> ast.FunctionDef of a method of the same object, evaluated in place (own locals, shared self)
         self.opaque_globals = opaque_globals  # opt-in: a dotted global the rule did not bind (module.Class.CONST) is an opaque object
         self.model_types = model_types  # opt-in: type()/isinstance()/builtin type names answered from the Python type of the model value
@@ -504,6 +505,43 @@ class Tiny:
             raise AnalysisError(f"tiny: call {t[:60]}")
         raise AnalysisError(f"tiny: expression {ast.unparse(e)[:60]}")
 
+    def _call_local(self, node, args, kwargs):
+        depth = getattr(self, "_depth", 0)
+        if depth > 8:
+            raise AnalysisError("tiny: inlining too deep")
+        a = node.args
+        names = [x.arg for x in a.posonlyargs + a.args]
+        env = dict(self.env)
+        if len(args) > len(names):
+            raise TinyRaise("TypeError")
+        bound = set()
+        for n_, v in zip(names, args):
+            env[n_] = v
+            bound.add(n_)
+        for k, v in kwargs.items():
+            if k not in names or k in bound:
+                raise TinyRaise("TypeError")
+            env[k] = v
+            bound.add(k)
+        defaults = dict(zip(names[len(names) - len(a.defaults):], a.defaults))
+        for n_ in names:
+            if n_ not in bound:
+                if n_ not in defaults:
+                    raise TinyRaise("TypeError")
+                env[n_] = self.ev(defaults[n_])
+        sub = Tiny(env, calls=self.calls, default_call=self.default_call, model_types=self.model_types, opaque_globals=self.opaque_globals, inline_self=self.inline_self,
+                   model_strings=self.model_strings, local_defs=self.local_defs)
+        sub._depth = depth + 1
+        sub.trace = self.trace
+        r = sub.run([x for x in node.body if not (isinstance(x, ast.Expr) and isinstance(x.value, ast.Constant))])
+        nonlocal_names = {n_ for x in ast.walk(node) if isinstance(x, ast.Nonlocal) for n_ in x.names}
+        for k, v in sub.env.items():
+            if k == "self" or k.startswith("self.") or k.startswith("self[") or k in nonlocal_names:
+                self.env[k] = v
+        if r[0] == "raise":
+            raise TinyRaise(r[1])
+        return r[1] if r[0] == "return" else None
+
     def _call_inline(self, node, args, kwargs):
         """Evaluate a method of the same object: fresh locals, the `self...` part of the environment is shared (stores persist)."""
         depth = getattr(self, "_depth", 0)
@@ -787,7 +825,11 @@ class Tiny:
                     continue
                 self.ev(st.value)
             elif isinstance(st, ast.FunctionDef):
-                self.env[st.name] = Sym(f"function {st.name}")
+                if self.local_defs and (self.local_defs is True or self.local_defs(st.name)) and not st.decorator_list and not st.args.vararg and not st.args.kwarg:
+                    # a local helper function: calling it by name evaluates its body (fresh locals, reads see the enclosing cell, `self...` stores persist)
+                    self.env[st.name] = Sym(f"function {st.name}", methods={"__call__": (lambda *a_, _n=st, **k_: self._call_local(_n, list(a_), k_))})
+                else:
+                    self.env[st.name] = Sym(f"function {st.name}")
             elif isinstance(st, (ast.Pass, ast.Assert, ast.Import, ast.ImportFrom, ast.Nonlocal, ast.Global)):
                 continue
             else:
